@@ -18,8 +18,9 @@ class Diverged(Exception):
 
 
 class ChoiceRNG(random.Random):
-    def __init__(self, prefix=()):
+    def __init__(self, prefix=(), frozen_sites=()):
         random.Random.__init__(self, 0)
+        self.frozen_sites = frozenset(frozen_sites)   # sites answered with their default, not choice points
         self.prefix = tuple(prefix)
         self.points = []     # (site, menu size)
         self.choices = []
@@ -27,6 +28,8 @@ class ChoiceRNG(random.Random):
 
     # -- the single mechanism ----------------------------------------------------
     def _pick(self, site, n):
+        if site in self.frozen_sites:
+            return 0
         i = len(self.choices)
         c = self.prefix[i] if i < len(self.prefix) else 0
         if c >= n:
@@ -107,6 +110,28 @@ def explore(run, bound, prefix=(), on_execution=None, max_executions=None):
     return n
 
 
+def explore_prefix(run, K, prefix=(), on_execution=None):
+    """Enumerates EVERY choice sequence over the first K choice points (full menus, no deviation
+    bound); beyond point K the default answer is taken.  Extends `prefix` only at positions
+    >= len(prefix).  Returns the number of executions."""
+    stack = [tuple(prefix)]
+    n = 0
+    while stack:
+        p = stack.pop()
+        rng, result = run(p)
+        n += 1
+        if on_execution is not None:
+            on_execution(rng, result)
+        ch = rng.choices
+        if tuple(ch[:len(p)]) != p[:len(ch)]:
+            raise Diverged("replay of prefix %r produced %r" % (p, ch))
+        for i in range(len(p), min(K, len(ch))):
+            site, m = rng.points[i]
+            for alt in range(1, m):
+                stack.append(tuple(ch[:i]) + (alt,))
+    return n
+
+
 def selftest():
     r = ChoiceRNG((1, 0, 1))
     xs = [0, 1, 2]
@@ -124,6 +149,7 @@ def selftest():
     assert explore(run, 0) == 1
     assert explore(run, 1) == 3
     assert explore(run, 2) == 4
+    assert explore_prefix(run, 1) == 2 and explore_prefix(run, 2) == 4
     return True
 
 
